@@ -224,8 +224,9 @@ def hist_clauses(steps, hist):
             out.append((s['q'], j))
         elif s['a'] == 'SWEEP':
             for q in L.QUERIES:
+                first = s['obs_first'] or s['obs']
                 if any(not (L.ans_same(q, e[q], o1[q]) and L.ans_same(q, e[q], o2[q]))
-                       for o1, o2, e in zip(s['obs_first'], s['obs'], h['exp'])):
+                       for o1, o2, e in zip(first, s['obs'], h['exp'])):
                     out.append((q, j))
     return out
 
